@@ -15,4 +15,6 @@ let table : (string * (z list -> z list)) list = [
   ("fill_px", run_fill_px);
   ("aruns", run_aruns);
   ("aa_spans", run_aa_spans);
+  ("hair_spans", run_hair_spans);
+  ("hair_px", (fun _ -> [Model.Zneg (Model.XI (Model.XO (Model.XO Model.XH)))]));
 ]
